@@ -101,9 +101,23 @@ CONTEXTS = [
     "<frameset>", "<body></body>", "<body></body></html>", "<head><noscript>", "<title>", "<textarea>", "<script>",
     "<style>", "<!--", "<head></head><frameset><frame></frameset>", "<button>", "<a><table>", "<ruby><rt>", "<dl><dd>",
     "<head><template>", "<plaintext>", "<iframe>", "<xmp>",
+    "<table><tbody>", "<table><thead><tr><th>", "<table><tr><td><select>", "<table><select>", "<table><caption><select>",
+    "<frameset></frameset>", "<frameset></frameset></html>", "<body></body></html><!-- c -->", "<html><!-- c -->",
+    "<head><meta name=a>", "<head><base href=y><link rel=z>", "<body><svg></svg>", "<svg><g>", "<svg><foreignObject><svg>",
+    "<svg><desc>", "<math><mtext>", "<math><mo><b>", "<math><annotation-xml encoding='application/xhtml+xml'>",
+    "<math><annotation-xml encoding=x><svg>", "<template><template>", "<template><colgroup>", "<template><td>",
+    "<template><select>", "<template><svg>", "<div><template><p>", "<select><optgroup><option>", "<select><hr>",
+    "<select><button><selectedcontent>", "<object><param>", "<ul><li><ul><li>", "<nobr><table><nobr>", "<b><i><p></b>",
+    "<form><input>", "<details><summary>", "<noembed>", "<noframes>", "<head><style>a</style>", "<head><script></script>",
+    "<body><noscript>", "<marquee>", "<applet>", "<h1><h2>", "<pre>\n", "<listing>", "<caption>", "<td>", "<option>",
 ]
+# the same with scripting switched off (noscript content is markup): "in head noscript"
+CONTEXTS_NOSCRIPT = ["<head><noscript>", "<noscript>", "<body><noscript>", "<head><noscript><link rel=x>", "<head><noscript></noscript>"]
 FRAG_CTX = ["html:select", "html:template", "svg:svg", "math:math", "html:head", "html:title", "html:table", "html:body",
-            "html:html", "svg:foreignObject", "math:mi", "html:tr", "html:noscript"]
+            "html:html", "svg:foreignObject", "math:mi", "html:tr", "html:noscript", "html:noscript!", "html:td", "html:tbody",
+            "html:colgroup", "html:caption", "html:frameset", "html:textarea", "html:script", "html:style", "html:plaintext",
+            "html:option", "html:optgroup", "svg:title", "svg:desc", "svg:g", "math:annotation-xml", "math:mtext", "html:div",
+            "html:meta", "html:link", "html:iframe", "html:xmp"]
 # (markup, kind) — L stands for the label
 VARIANTS = [
     "<meta charset={L}>", "<meta charset=\"{L}\">", "<META CHARSET={L}>", "<meta charset={L} charset={M}>", "<meta charset>",
@@ -118,7 +132,14 @@ VARIANTS = [
     "<meta http-equiv=x http-equiv=content-type content=\"charset={L}\">",
     "<meta http-equiv=content-type content=\"charset=;\">", "<meta http-equiv=content-type content=\"charset charset={L};q\">",
     "<meta xml:charset={L}>", "<meta charset={L}><meta charset={M}>", "<meta http-equiv=cont&#101;nt-type content=charset&#61;{L}>",
-    "</meta charset={L}>", "<meta>",
+    "</meta charset={L}>", "<meta>", "<meta charset={L}></meta>", "<meta/>", "<meta charset={L}>x</meta>",
+    "<meta CharSet={L} CHARSET={M}>", "<meta charset=\"{L}\"charset=\"{M}\">", "<meta charset={L}\ncontent=x>",
+    "<meta http-equiv=content-type content=\"charset={L}\" charset>", "<meta charset={L} charset={M} charset=z>",
+    "<meta HTTP-EQUIV=CONTENT-TYPE CONTENT=\"CHARSET={L}\">", "<meta http-equiv=content-type content=charset={L}>",
+    "<meta http-equiv=content-type content=\" charset = {L} ; x\">", "<meta http-equiv=content-typé content=\"charset={L}\">",
+    "<meta http-equiv=ſontent-type content=\"charset={L}\">", "<meta http-equiv=content-type content=\"ſharset={L}\">",
+    "<meta charset={L}><p><meta http-equiv=content-type content=\"charset={M}\">",
+    "<meta charset={L}><link charset=z><meta charset={M}>",
     "<link charset={L}>", "<base charset={L}>", "<basefont charset={L}>", "<bgsound charset={L}>",
     "<link http-equiv=content-type content=\"charset={L}\">", "<base href=x>", "<link rel=x>",
     "<metax charset={L}>", "<title charset={L}>", "<p charset={L}>",
@@ -130,8 +151,20 @@ def mk_doc(ctx, chunks):
     return "meta\tdoc\t%s\t%s" % (ctx, "|".join(hx(c) for c in chunks))
 
 
+def _swap_last(m, lo, up):
+    t = m.group(0)
+    return t[:-1] + (up if t[-1:].isupper() else lo)
+
+
 def neutral(b):
-    return b.replace(b"charset", b"charsex").replace(b"CHARSET", b"CHARSEX").replace(b"http-equiv", b"http-equix")
+    """rename every (ASCII case-insensitive) `charset` → `charsex`, `http-equiv` → `http-equix`, keeping the case"""
+    b = re.sub(rb"(?i)charset", lambda m: _swap_last(m, b"x", b"X"), b)
+    return re.sub(rb"(?i)http-equiv", lambda m: _swap_last(m, b"x", b"X"), b)
+
+
+def unneutral(t):
+    t = re.sub(r"(?i)charsex", lambda m: _swap_last(m, "t", "T"), t)
+    return re.sub(r"(?i)http-equix", lambda m: _swap_last(m, "v", "V"), t)
 
 
 def utf8_splits(b):
@@ -169,6 +202,10 @@ def gen_cases(tier, rng):
                     continue
                 d = (ctx + var.replace("{L}", "Lq1").replace("{M}", "Mq2") + suf).encode("utf-8")
                 docs.append(("-", d, var))
+    for ctx in CONTEXTS_NOSCRIPT:
+        for var in VARIANTS:
+            d = (ctx + var.replace("{L}", "Lq1").replace("{M}", "Mq2") + "x").encode("utf-8")
+            docs.append(("-!", d, var))
     for fc in FRAG_CTX:
         for var in VARIANTS:
             for pre in ("", "<p>", "<svg>", "<option>"):
@@ -258,6 +295,7 @@ def oracle(line, out):
     if f[1] == "doc":
         if out == "bad-case":
             return "bad-case"
+        whole = b"".join(unhx(c) for c in f[3].split("|"))
         a, b = out.split(" ## ")
         pa = split_dump(a)
         pb = split_dump(b)
@@ -279,6 +317,10 @@ def oracle(line, out):
                 not_in_tree = unhx(lab)
         if sorted(got) == sorted(want) and not_in_tree is not None:
             return "indicator %r raised but no HTML meta element carrying it is in the tree yet" % not_in_tree
+        if sorted(got) == sorted(want) and len(set(got)) == len(got) and all(g and whole.count(g) == 1 for g in got):
+            pos = [whole.find(g) for g in got]
+            if pos != sorted(pos):
+                return "indicators %r are not raised in source order" % got
         if sorted(got) != sorted(want):
             if others and sorted(got) == sorted(want + [l for _, l in others]):
                 return "indicator raised for non-meta element(s) %s (the standard: meta only)" % \
@@ -309,7 +351,7 @@ def oracle_all(cases, outs):
         if pt[0]:
             res.append((twin, "neutralised document still raises indicators %r" % pt[0], to))
             continue
-        t2 = pt[1].replace("charsex", "charset").replace("CHARSEX", "CHARSET").replace("http-equix", "http-equiv")
+        t2 = unneutral(pt[1])
         if t2 != pa[1]:
             res.append((line, "tree differs from the same document parsed without suspension (attributes neutralised): "
                               "%s vs %s" % (pa[1], t2), out))
@@ -343,6 +385,23 @@ KNOWN_MATCHERS = {"F10": _link_defect}
 
 def extra_evidence(check):
     fams = {}
-    for (line, tag) in check.cases:
+    fired = 0
+    fired_ctx, all_ctx = set(), set()
+    for (line, tag), io in zip(check.cases, check.impl):
         fams[tag.split(":")[0]] = fams.get(tag.split(":")[0], 0) + 1
-    return {"families": fams, "contexts": CONTEXTS, "fragment_contexts": FRAG_CTX, "variants": VARIANTS}
+        if tag == "doc":
+            f = line.split("\t")
+            d = unhx(f[3].split("|")[0])
+            i = d.find(b"<meta")
+            if i < 0:
+                continue
+            key = f[2] + " " + d[:i].decode("utf-8", "replace")
+            all_ctx.add(key)
+            if io and io.startswith("I:"):
+                fired += 1
+                fired_ctx.add(key)
+    return {"families": fams, "doc_cases_with_indicator": fired,
+            "contexts_total": len(all_ctx), "contexts_where_an_indicator_fired": len(fired_ctx),
+            "contexts_never_firing (text modes, frameset modes, ignored tokens)": sorted(all_ctx - fired_ctx)[:80],
+            "contexts": CONTEXTS, "contexts_scripting_off": CONTEXTS_NOSCRIPT, "fragment_contexts": FRAG_CTX,
+            "variants": VARIANTS}
